@@ -16,6 +16,10 @@ func PropC11(c *vs.Case, f Factory) error {
 		scn.Prog.SyncFinalized = true
 		c.Class("sync-answer-says-finalized")
 	}
+	if c.Prob(1, 4) {
+		scn.Prog.ResyncAfter = 5 // the hook asks to be called again later: a delayed re-queue of the same parent
+		c.Class("hook-asks-for-resync")
+	}
 	env, err := NewEnv(scn, f)
 	if err != nil {
 		return fmt.Errorf("harness: %v", err)
@@ -243,8 +247,8 @@ func PropC11(c *vs.Case, f Factory) error {
 			}
 		}
 	}
-	if len(env.CacheViolations) > 0 {
-		return vs.Violf("C17/cache-mutated", "shared cache objects changed during a sync: %v", env.CacheViolations)
+	if v := env.SharedStateViolation(); v != nil {
+		return v
 	}
 	return nil
 }
